@@ -559,14 +559,17 @@ InitState ==
         InitWith([fam |-> f, ae |-> ae, ws |-> ws, sval |-> sv, bval |-> DefaultB, oval |-> DefaultO, fuel |-> Fuel, lib |-> lib],
                  [main |-> Render(Family(f).pre), base |-> Library(lib).base, inc |-> Library(lib).inc])
 
-Add(t) ==
-    /\ Len(toks) + 1 < Family(cfg.fam).max + Grow
-    /\ t \in Family(cfg.fam).alpha
+AddFree(t) ==
     /\ toks' = Append(toks, t)
     /\ src' = [src EXCEPT !.main = @ \o Cps(t)]
     /\ res' = Run(src', cfg)
     /\ UNCHANGED cfg
     /\ step' = [act |-> "add", args |-> <<t>>, exp |-> <<>>]
+
+Add(t) ==
+    /\ Len(toks) + 1 < Family(cfg.fam).max + Grow
+    /\ t \in Family(cfg.fam).alpha
+    /\ AddFree(t)
 
 Next == \E t \in DOMAIN TokText : Add(t)
 Spec == InitState /\ [][Next]_<<vars, step>>
@@ -626,9 +629,10 @@ FinalAE(f) == (* independent of Parse: the last autoescape directive of the file
     LET P == Parse(src[f], "all") IN
     IF P.ae = "unset" THEN (IF cfg.ae = "None" THEN "None" ELSE "esc") ELSE P.ae
 EscapedWhereInEffect ==
+    LET aes == [f \in {res.segs[i].file : i \in 1..Len(res.segs)} |-> FinalAE(f)] IN
     \A i \in 1..Len(res.segs) :
         LET g == res.segs[i] IN
-        /\ g.src = "expr" => (g.esc <=> FinalAE(g.file) # "None")
+        /\ g.src = "expr" => (g.esc <=> aes[g.file] # "None")
         /\ g.esc => SafeText(g.s)
         /\ g.src = "raw" => ~g.esc
 (* the whole output is the concatenation of the segments *)
